@@ -7,9 +7,13 @@ package main
 import (
 	"bytes"
 	"context"
+	"encoding/json"
+	"fmt"
 	"io/ioutil"
+	"net"
 	"net/http"
 	"net/http/httptest"
+	"sort"
 	"strconv"
 	"strings"
 	"sync"
@@ -160,8 +164,187 @@ func verifC19Seq(op, spec string) string {
 	return strings.Join(out, ";")
 }
 
+// ---- kproc: a keepstore process that has just started (no remote keep client yet) --------------
+//
+// The remote clusters' API endpoints are played by ONE loopback TLS server that is addressed under
+// a different 127.x.y.z address for every (case, remote) — keepclient caches service lists per API
+// host for the life of the process, so a fresh host makes every case start from "never talked to
+// this remote". The block requests of the keep clients that remoteProxy builds are observed through
+// the process-wide default keep HTTP client (hook in sdk/go/keepclient), which answers 404.
+
+type verifC19Net struct {
+	mtx     sync.Mutex
+	events  []string
+	dumps   []string
+	remotes map[string]string // API host (ip:port) and keep host tag -> remote id
+	port    string
+	n       int
+}
+
+var verifC19NetOnce sync.Once
+var verifC19TheNet *verifC19Net
+
+func (vn *verifC19Net) add(ev, dump string) {
+	vn.mtx.Lock()
+	vn.events = append(vn.events, ev)
+	vn.dumps = append(vn.dumps, dump)
+	vn.mtx.Unlock()
+}
+
+func (vn *verifC19Net) remoteOf(key string) (string, bool) {
+	vn.mtx.Lock()
+	defer vn.mtx.Unlock()
+	r, ok := vn.remotes[key]
+	return r, ok
+}
+
+// block requests (keepclient's HTTPClient)
+func (vn *verifC19Net) Do(req *http.Request) (*http.Response, error) {
+	dest := "x." + verifc19.Hex(req.URL.Scheme+"://"+req.URL.Host)
+	if h := strings.Split(req.URL.Host, "."); len(h) == 3 && h[2] == "example:25107" {
+		if r, ok := vn.remoteOf(h[1]); ok {
+			dest = "r." + verifc19.Hex(r)
+		}
+	}
+	vn.add("b@"+dest+"@"+verifc19.Hex(strings.TrimPrefix(req.URL.Path, "/"))+"@"+verifc19.HexList(req.Header["Authorization"]),
+		verifc19.Dump(req, nil))
+	return &http.Response{
+		StatusCode: 404, Status: "404 Not Found", Proto: "HTTP/1.1", ProtoMajor: 1, ProtoMinor: 1,
+		Header: http.Header{}, Body: ioutil.NopCloser(bytes.NewReader(nil)), Request: req,
+	}, nil
+}
+
+// the remote clusters' API endpoints
+func (vn *verifC19Net) ServeHTTP(w http.ResponseWriter, r *http.Request) {
+	remote, ok := vn.remoteOf(r.Host)
+	who := verifc19.Hex(remote)
+	if !ok {
+		who = "unknown-" + verifc19.Hex(r.Host)
+	}
+	body, _ := ioutil.ReadAll(r.Body)
+	r.URL.Host, r.URL.Scheme = r.Host, "https"
+	auths := verifc19.HexList(r.Header["Authorization"])
+	w.Header().Set("Content-Type", "application/json")
+	switch {
+	case r.Method == "GET" && r.URL.Path == "/discovery/v1/apis/arvados/v1/rest" && r.URL.RawQuery == "":
+		vn.add("d@"+who+"@"+auths, verifc19.Dump(r, body))
+		json.NewEncoder(w).Encode(map[string]interface{}{"defaultCollectionReplication": 2})
+	case r.Method == "GET" && r.URL.Path == "/arvados/v1/keep_services/accessible" && r.URL.RawQuery == "":
+		vn.add("s@"+who+"@"+auths, verifc19.Dump(r, body))
+		tag := strings.Replace(strings.Split(r.Host, ":")[0], ".", "-", -1)
+		var items []map[string]interface{}
+		for i := 0; i < 2; i++ {
+			items = append(items, map[string]interface{}{
+				"uuid": "zrmte-bi6l4-00000000000000" + strconv.Itoa(i), "service_host": "keep" + strconv.Itoa(i) + "." + tag + ".example",
+				"service_port": 25107, "service_ssl_flag": false, "service_type": "disk", "read_only": false})
+		}
+		json.NewEncoder(w).Encode(map[string]interface{}{"kind": "arvados#keepServiceList", "items": items})
+	default:
+		vn.add("o@"+who+"@"+verifc19.Hex(r.Method+" "+r.URL.RequestURI())+"@"+auths, verifc19.Dump(r, body))
+		http.Error(w, `{"errors":["not found"]}`, http.StatusNotFound)
+	}
+}
+
+func verifC19GetNet() *verifC19Net {
+	verifC19NetOnce.Do(func() {
+		vn := &verifC19Net{remotes: map[string]string{}}
+		ln, err := net.Listen("tcp4", "0.0.0.0:0")
+		if err != nil {
+			panic(err)
+		}
+		srv := httptest.NewUnstartedServer(vn)
+		srv.Listener.Close()
+		srv.Listener = ln
+		srv.Config.ErrorLog = nil
+		srv.StartTLS()
+		_, vn.port, _ = net.SplitHostPort(ln.Addr().String())
+		keepclient.VerifC19SetDefaultClient(vn)
+		verifC19TheNet = vn
+	})
+	return verifC19TheNet
+}
+
+// a new API address for a remote cluster of the current case
+func (vn *verifC19Net) newRemote(remote string) string {
+	vn.mtx.Lock()
+	defer vn.mtx.Unlock()
+	vn.n++
+	n := vn.n
+	ip := fmt.Sprintf("127.%d.%d.%d", 1+(n/62500)%120, (n/250)%250, 1+n%250)
+	vn.remotes[ip+":"+vn.port] = remote
+	vn.remotes[strings.Replace(ip, ".", "-", -1)] = remote
+	return ip + ":" + vn.port
+}
+
+// kproc <configured remotes> <step>;...   step = <Authorization values>:<hash>+<hint>+...
+func verifC19Proc(cfg, spec string) string {
+	vn := verifC19GetNet()
+	cluster := &arvados.Cluster{RemoteClusters: map[string]arvados.RemoteCluster{}}
+	if cfg != "-" {
+		for _, r := range strings.Split(cfg, ",") {
+			remote := verifc19.Unhex(r)
+			cluster.RemoteClusters[remote] = arvados.RemoteCluster{Host: vn.newRemote(remote), Insecure: true, Scheme: "https", Proxy: true}
+		}
+	}
+	rp := &remoteProxy{}
+	var out []string
+	vn.mtx.Lock()
+	d0 := len(vn.dumps)
+	vn.mtx.Unlock()
+	for _, st := range strings.Split(spec, ";") {
+		p := strings.SplitN(st, ":", 2)
+		var parts []string
+		for _, h := range strings.Split(p[1], "+") {
+			parts = append(parts, verifc19.Unhex(h))
+		}
+		req := httptest.NewRequest("GET", "/"+strings.Join(parts, "+"), nil)
+		if p[0] != "-" {
+			var vals []string
+			for _, v := range strings.Split(p[0], ",") {
+				vals = append(vals, verifc19.Unhex(v))
+			}
+			req.Header["Authorization"] = vals
+		}
+		vn.mtx.Lock()
+		n0 := len(vn.events)
+		vn.mtx.Unlock()
+		w := httptest.NewRecorder()
+		rp.Get(context.Background(), w, req, cluster, nil)
+		vn.mtx.Lock()
+		evs := append([]string(nil), vn.events[n0:]...)
+		vn.mtx.Unlock()
+		var distinct []string
+		seen := map[string]bool{}
+		for _, ev := range evs {
+			if !seen[ev] {
+				seen[ev] = true
+				distinct = append(distinct, ev)
+			}
+		}
+		if len(distinct) == 0 {
+			distinct = []string{"-"}
+		}
+		out = append(out, strconv.Itoa(w.Code)+"/"+strings.Join(distinct, "|"))
+	}
+	// the tokens the cached per-remote clients hold
+	var held []string
+	rp.mtx.Lock()
+	for _, kc := range rp.clients {
+		held = append(held, kc.Arvados.ApiToken)
+	}
+	rp.mtx.Unlock()
+	sort.Strings(held)
+	vn.mtx.Lock()
+	dump := strings.Join(vn.dumps[d0:], "\n")
+	vn.mtx.Unlock()
+	return strings.Join(out, ";") + " C=" + verifc19.HexList(held) + " X=" + verifc19.Hex(dump)
+}
+
 func verifC19Case(line string) string {
 	f := strings.Split(line, " ")
+	if len(f) == 3 && f[0] == "kproc" {
+		return verifC19Proc(f[1], f[2])
+	}
 	if len(f) == 2 && (f[0] == "keepseq" || f[0] == "keepgetseq") {
 		return verifC19Seq(f[0], f[1])
 	}
